@@ -174,7 +174,9 @@ func (e *Enc) encAlloc(fr *Frame, st *State, in *ssa.Alloc) {
 	r := e.allocRef(st, fr.prefix+hint)
 	p := &Val{T: in.Type(), L: []Sc{{r, "Int"}}}
 	fr.vals[in] = p
-	// zero-initialise
+	// zero-initialise (a write into the object just allocated: see noteLoopWrite)
+	e.storeRoot, e.storeFrame = in, fr
+	defer func() { e.storeRoot, e.storeFrame = nil, nil }()
 	loc := e.refLoc(r, el)
 	if loc.Kind == 'A' {
 		// array backing: zero contents
@@ -219,11 +221,34 @@ func (e *Enc) encStore(fr *Frame, st *State, in *ssa.Store) {
 		e.nilCheck(fr, st, p, in.Pos(), "store")
 	}
 	loc := e.ptrLoc(p)
+	e.storeRoot, e.storeFrame = rootAlloc(in.Addr), fr
+	defer func() { e.storeRoot, e.storeFrame = nil, nil }()
 	if loc.Kind == 'A' {
 		e.storeArray(st, loc, v)
 		return
 	}
 	e.storeLoc(st, loc, v)
+}
+
+// rootAlloc: the allocation a store address is an interior pointer of (through field / array-element addressing).
+func rootAlloc(v ssa.Value) *ssa.Alloc {
+	for i := 0; i < 32; i++ {
+		switch x := v.(type) {
+		case *ssa.Alloc:
+			return x
+		case *ssa.FieldAddr:
+			v = x.X
+		case *ssa.IndexAddr:
+			if _, ok := x.X.Type().Underlying().(*types.Pointer); ok {
+				v = x.X // element of an array object; a slice element may belong to any backing array
+			} else {
+				return nil
+			}
+		default:
+			return nil
+		}
+	}
+	return nil
 }
 
 // storeArray stores a whole array value at a pointer-to-array location.
